@@ -339,50 +339,68 @@ ItemFrame(listId, nodeId, m, indent, pad) ==
     [kind |-> "item", node |-> nodeId, list |-> listId, first |-> f, rest |-> Spaces(Len(f)), started |-> FALSE,
      marker |-> SubSeq(MarkerStr(m), 1, 1), mtype |-> MarkerType(m), num |-> (IF "b" \in DOMAIN m THEN 0 ELSE m.n), indent |-> indent, pad |-> pad]
 
+(* the item frames at the top of the stack whose marker line has not been written yet and whose marker is ch *)
+PendingSame(ch) == {i \in DOMAIN open : open[i].kind = "item" /\ ~open[i].started /\ open[i].marker = ch /\ ch \in {"-", "*"}
+                                          /\ \A j \in i..Len(open) : open[j].kind = "item" /\ ~open[j].started /\ open[j].marker = ch}
+
+(* a list item may begin with (at most one) blank line: the marker stands alone on its line and the content offset is
+   the marker width plus one; such an item cannot interrupt a paragraph *)
+EmptyStartFrame(listId, nodeId, m, indent) ==
+    [ItemFrame(listId, nodeId, m, indent, 1) EXCEPT !.started = TRUE]
+
 OpenList ==
-    \E sep \in Seps, v \in Variants :
+    \E sep \in Seps, v \in Variants, bs \in BOOLEAN :
       LET m == At(MarkerSeq, v)
           indent == At(Pick(<<0>>, <<0>>, <<0, 1, 2>>), v \div 3)
-          pad == At(Pick(<<1>>, <<1, 2>>, <<1, 2, 3>>), v \div 2) IN
+          pad == At(Pick(<<1>>, <<1, 2>>, <<1, 2, 3>>), v \div 2)
+          sl == SepLines(sep) IN
        /\ phase = "typing" /\ Depth < MaxDepth /\ nblocks < MaxBlocks
        /\ FirstKindOk("list")
-       /\ SepOk(sep, SepKind(m))
+       /\ SepOk(sep, IF bs THEN "elist" ELSE SepKind(m))
        /\ IndOk(indent)
        /\ ~(last.kind = "list" /\ last.mtype = MarkerType(m))          \* two adjacent lists of one type are one list
-       /\ src' = src \o SepLines(sep)
-       /\ nodes' = nodes \o <<Node("List", Parent, Len(src) + Len(SepLines(sep)) + 1, 0, NoText, [start |-> (IF "b" \in DOMAIN m THEN 0 ELSE m.n), ordered |-> ~("b" \in DOMAIN m)]),
-                              Node("ListItem", Len(nodes) + 1, Len(src) + Len(SepLines(sep)) + 1, 0, NoText, "")>>
-       /\ open' = Append(open, ItemFrame(Len(nodes) + 1, Len(nodes) + 2, m, indent, pad))
+       /\ ~(bs /\ Cardinality(PendingSame(MarkerStr(m))) >= 2)                   \* "- - -" on one line is a thematic break
+       /\ src' = IF bs THEN src \o sl \o <<PrefixNow(open) \o Spaces(indent) \o MarkerStr(m)>> ELSE src \o sl
+       /\ nodes' = nodes \o <<Node("List", Parent, Len(src) + Len(sl) + 1, 0, NoText, [start |-> (IF "b" \in DOMAIN m THEN 0 ELSE m.n), ordered |-> ~("b" \in DOMAIN m)]),
+                              Node("ListItem", Len(nodes) + 1, Len(src) + Len(sl) + 1, 0, NoText, "")>>
+       /\ open' = IF bs THEN Append(Started(open), EmptyStartFrame(Len(nodes) + 1, Len(nodes) + 2, m, indent))
+                        ELSE Append(open, ItemFrame(Len(nodes) + 1, Len(nodes) + 2, m, indent, pad))
        /\ loose' = LooseAfter(sep)
        /\ last' = [kind |-> "none", mtype |-> ""]
-       /\ UNCHANGED <<defs, nblocks, phase, tags, target>>
+       /\ tags' = tags \cup (IF bs THEN {"item-begins-with-blank-line"} ELSE {})
+       /\ nblocks' = IF bs THEN nblocks + 1 ELSE nblocks       \* an item that may stay empty counts against the budget
+       /\ UNCHANGED <<defs, phase, target>>
 
 (* the next item of the innermost list: same type of marker, numbers count upwards; a blank line makes the list loose *)
 NextItem ==
-    \E sep \in Seps, pad \in Pick({1}, {1}, {1, 3}) :
+    \E sep \in Seps, pad \in Pick({1}, {1}, {1, 3}), bs \in BOOLEAN :
        /\ phase = "typing" /\ open # << >> /\ Top.kind = "item" /\ Top.started /\ nblocks < MaxBlocks
        /\ (sep = "none" => last.kind \notin {"list", "quote"})           \* see tag "lazy": a closed container needs care
+       /\ (sep = "none" /\ bs => last.kind # "para")                    \* a lone "-" under paragraph text is a setext underline
        /\ LET m == IF Top.num = 0 /\ Top.marker \in Bullets THEN [b |-> Top.marker] ELSE [n |-> Top.num + 1, d |-> Top.mtype]
               outer == SubSeq(open, 1, Len(open) - 1)
               blank == RStrip(PrefixRest(outer))
               sl == IF sep = "blank" THEN <<blank>> ELSE << >> IN
-          /\ src' = src \o sl
+          /\ src' = IF bs THEN src \o sl \o <<PrefixRest(outer) \o Spaces(Top.indent) \o MarkerStr(m)>> ELSE src \o sl
           /\ nodes' = Append(nodes, Node("ListItem", Top.list, Len(src) + Len(sl) + 1, 0, NoText, ""))
-          /\ open' = Append(outer, ItemFrame(Top.list, Len(nodes) + 1, m, Top.indent, pad))
+          /\ open' = IF bs THEN Append(outer, EmptyStartFrame(Top.list, Len(nodes) + 1, m, Top.indent))
+                           ELSE Append(outer, ItemFrame(Top.list, Len(nodes) + 1, m, Top.indent, pad))
           /\ loose' = IF sep = "blank" THEN loose \cup {Top.list} ELSE loose
        /\ last' = [kind |-> "none", mtype |-> ""]
-       /\ UNCHANGED <<defs, nblocks, phase, tags, target>>
+       /\ tags' = tags \cup (IF bs THEN {"item-begins-with-blank-line"} ELSE {})
+       /\ nblocks' = IF bs THEN nblocks + 1 ELSE nblocks
+       /\ UNCHANGED <<defs, phase, target>>
 
 Close ==
     /\ phase = "typing" /\ open # << >> /\ Top.started
     /\ open' = SubSeq(open, 1, Len(open) - 1)
     /\ last' = [kind |-> (IF Top.kind = "quote" THEN "quote" ELSE "list"), mtype |-> Top.mtype]
-    /\ UNCHANGED <<src, nodes, loose, defs, nblocks, phase, tags, target>>
+    /\ UNCHANGED <<src, nodes, loose, defs, nblocks, phase, target>>
 
 Finish ==
     /\ phase = "typing" /\ AllStarted /\ nblocks >= target
     /\ phase' = "done"
-    /\ UNCHANGED <<src, open, nodes, loose, defs, last, nblocks, tags, target>>
+    /\ UNCHANGED <<src, open, nodes, loose, defs, last, nblocks, target>>
 
 Init ==
     /\ src = << >> /\ open = << >> /\ nodes = <<Node("Document", 0, 1, 0, NoText, "")>> /\ loose = {} /\ defs = << >>
@@ -390,7 +408,7 @@ Init ==
     /\ target \in (IF Rich THEN 2..MaxBlocks ELSE {1})
 
 Next == TypePara \/ TypeAtx \/ TypeSetext \/ TypeHr \/ TypeFence \/ TypeIndented \/ TypeDef
-        \/ (OpenQuote /\ UNCHANGED tags) \/ OpenList \/ NextItem \/ Close \/ Finish
+        \/ (OpenQuote /\ UNCHANGED tags) \/ OpenList \/ NextItem \/ (Close /\ UNCHANGED tags) \/ (Finish /\ UNCHANGED tags)
 
 ---------------------------------------------------------------------------
 (* the HTML of the intended tree *)
